@@ -12,6 +12,7 @@ R18.5  the contributions of the files are not accumulated with a commutative ope
        order and, for xor, cancels equal contributions).  Rules 1, 2 and 5 look at calculateHash together with the
        helpers of lib/preprocessor.cpp it calls.
 R18.6  the key depends on the name of every loaded file (simplecpp::FileData::filename is read by the key functions).
+R18.7  AnalyzerInformation::reopen writes the stored content back unchanged (the findings of a cache-hit file exist only there).
 R18.3  in CppCheck::checkInternal every path to the calculateHash call for the analysed file passes
        Preprocessor::inlineSuppressions, and CppCheck::calculateHash dumps Suppressions::nomsg.
 R18.4  AnalyzerInformation::skipAnalysis compares the stored hash attribute with the full decimal
@@ -162,6 +163,10 @@ def run(ctx):
            'their contents) and, for xor, when two equal contributions are edited alike (they cancel)' %
            ', '.join('%s:%s (`%s`)' % (f['file'], n['l'], n.get('op')) for f, n in comm),
            '%s:%s' % ((comm[0][0]['file'], comm[0][1]['l']) if comm else (ph['file'], ph['line'])))
+
+    # R18.7 (shared with C20 R20.6): re-opening a cache file keeps its stored findings
+    from .C20 import r20_6
+    r20_6(ctx, 'R18.7')
 
     # R18.3
     ci = F.one('CppCheck::checkInternal')
